@@ -2,6 +2,7 @@ import Driver.Points
 import RodbusModel.Model.Mbap
 import RodbusModel.Model.Rtu
 import RodbusModel.Spec.Server
+import RodbusModel.Model.Session
 import RodbusModel.Spec.Mbap
 import RodbusModel.Spec.Rtu
 /-
@@ -167,7 +168,19 @@ def runSrv (tok : List String) : String × String :=
     let go (respond : List (Nat × Points) → Frame → FrameOut Points) : String :=
       if rtu then srvOut (srvLoop (Rtu.parse .request) respond rtu .start RB.empty ⟨[], [], hs, none⟩ steps)
       else srvOut (srvLoop Mbap.parse respond rtu .begin RB.empty ⟨[], [], hs, none⟩ steps)
-    (go (handleFrame cfg), go (Spec.Server.respond cfg))
+    -- model: `runSession` (event-based formulation); specification: the reference server
+    -- `Spec.Server.respond` driven by the reader threaded through the deliveries
+    let script : List SessStep := (steps.map fun st => match st with
+      | .data bs => SessStep.data bs
+      | .decode => SessStep.setDecode {}
+      | .shutdown => SessStep.shutdown
+      | .readErr => SessStep.readErr) ++ [SessStep.eof]
+    let o := runSession (if rtu then .rtu else .tcp) cfg {} hs script
+    let endStr := match o.ended with
+      | .eof => "io.eof" | .reset => "io.reset" | .shutdown => "shutdown"
+      | .badFrame e => frameErrStr e | .running => "running"
+    let model := srvOut ⟨o.tx, o.calls, o.states, some endStr⟩
+    (model, go (Spec.Server.respond cfg))
   | _ => ("bad-case", "bad-case")
 
 end Rodbus.Driver
